@@ -2,6 +2,9 @@
 from conf.common import *  # noqa
 
 HASHES = ["sha256", "mimc"]
+# the rest of the hash family: digest sizes 20, 28, 48, 64 bytes (stdlib) and MiMC over a second 4-limb field (32 bytes),
+# a 5-limb field (bw6-633 fr, 40 bytes) and a 6-limb field (bw6-761 fr, 48 bytes)
+MORE = ["sha1", "sha224", "sha384", "sha512", "mimc_bls12381", "mimc_bw6633", "mimc_bw6761"]
 
 PROP = dict(
     rule=("a call history on one transcript (Bind / ComputeChallenge on declared and undeclared names, caller-side "
@@ -14,16 +17,27 @@ PROP = dict(
         "specification = harness/internal/ref/transcript.go (no gnark-crypto code): c_p = H(name_p || c_{p-1} if p>0 || bound values in order)",
         "the hash is a black box: SHA-256 = crypto/sha256 of the concatenation; MiMC (bn254) = a fresh library MiMC instance fed one Write per "
         "chunk (MiMC itself is decided by C14), inputs restricted to what MiMC.Write documents: empty, < 32 bytes, or whole canonical blocks",
+        "hash family: SHA-1/224/256/384/512 (crypto/*; digests 20..64 bytes) and MiMC over bn254, bls12-381 (32 bytes), bw6-633 (40) and "
+        "bw6-761 (48): the transcript takes any hash.Hash and must not assume a digest size",
+        "caller-side mutation = append to (1, n, 2n+1 bytes, then every byte of the spare capacity) and overwrite in place every slice "
+        "handed to Bind (handed over as a window of a larger caller buffer, which Bind must leave untouched) and every slice returned "
+        "by ComputeChallenge; the model is never told",
         "errors are compared by presence only (the error values are unexported)",
         "challenge names are distinct; duplicate names are undocumented by NewTranscript and only checked for absence of panics",
     ],
+    # generator health: every digest-size class and every caller-side mutation kind must occur in each run
+    mandatory_all=["digest:<32", "digest:=32", "digest:>32", "mut:overwrite_bound", "mut:append_bound",
+                   "mut:overwrite_returned", "mut:append_returned"],
     jobs=[
         dict(name="exhaustive", pkg="c15", run="^TestC15_Exhaustive$", rapid=False, shards=HASHES, seeds=(8, 16),
              timeout=(600, 3000)),
+        dict(name="exhaustive_more", pkg="c15", run="^TestC15_Exhaustive$", rapid=False, shards=MORE, seeds=(1, 2),
+             timeout=(600, 3000)),
         dict(name="machine", pkg="c15", run="^TestC15_Machine$", shards=HASHES, checks=(30000, 400000), seeds=(2, 4)),
+        dict(name="machine_more", pkg="c15", run="^TestC15_Machine$", shards=MORE, checks=(5000, 60000)),
         dict(name="rejected", pkg="c15", run="^TestC15_RejectedBinding$", checks=(5000, 100000)),
         dict(name="dupnames", pkg="c15", run="^TestC15_DuplicateNames$", checks=(5000, 50000)),
-        dict(name="bursts", pkg="c15", run="^TestC15_Bursts$", rapid=False, shards=HASHES),
+        dict(name="bursts", pkg="c15", run="^TestC15_Bursts$", rapid=False, shards=HASHES + MORE),
         dict(name="regress", pkg="c15", run="^TestC15_(Anchor|Regress.*)$", rapid=False),
     ],
 )
@@ -33,7 +47,7 @@ PROP.update(
                "state machine for long random histories, both in lock step with a reference state machine"),
     level_text=("Every history of length <= 6 (quick) / 7 (thorough) over a 14-symbol alphabet (3 declared names, one undeclared, "
                 "2 values, 2 aliasing events) is executed against the library and the specification and compared after every call "
-                "(SHA-256; MiMC to length 4/5); longer histories with 1..4 arbitrary names (including the empty name) and arbitrary "
+                "(SHA-256; MiMC/bn254 to length 4/5; seven more hashes with digests of 20..64 bytes to length 4/5 resp. 3/4); longer histories with 1..4 arbitrary names (including the empty name) and arbitrary "
                 "values are sampled with a rapid state machine. Exhaustive within the bound, exploration beyond it."),
     level_note="trusts crypto/sha256 and (for the MiMC instance) the library's MiMC as a black-box hash; error kinds are not distinguished",
 )
